@@ -509,6 +509,22 @@ func run(r *vt.Run, t vt.TB, s spec) {
 	if inTxn {
 		do("w", "ROLLBACK")
 	}
+	// ... and no lock: every read of ours has returned (also the refused
+	// ones), every other connection has let go - a writer gets EXCLUSIVE at once
+	releaseOwn()
+	if rawHeld {
+		peer.Call("rawunlock", "")
+		rawHeld = false
+	}
+	if err := do("w", "BEGIN EXCLUSIVE"); err != nil {
+		if busy(err) {
+			obs, _ := locks.ProbeFd(probeFile)
+			r.Violation(t, s, "lock-left-behind", "after %v: all reads have returned and no other connection holds anything, yet a SQLite writer cannot get EXCLUSIVE (%v); locks seen from this process: %s", history, err, obs)
+			return
+		}
+		r.Harness(t, "final begin exclusive: %v", err)
+	}
+	do("w", "ROLLBACK")
 	cls := []string{fmt.Sprintf("ps=%d", s.PageSize), fmt.Sprintf("sync-off=%v", s.SyncOff)}
 	for c := range classes {
 		cls = append(cls, c)
